@@ -21,27 +21,38 @@ UNITS = {'json': dict(wrap='wrap.cc', shim=True, new_block=96, cxxflags=['-DVERI
 UNITS['jc'] = dict(wrap='wrap.cc', shim=True, new_block=96, cxxflags=['-DVERIF_UMAP_CAP=2'], cuts=CUTS, ir2c_flags=['--union-fp-bytes', '--ptrdiff', '--flat-unions'],
                    gen_defs=['VERIF_NEW_POOL=16', 'VERIF_MEM_WORDS'])
 
-BOUNDS = ('JSON::parse on templated documents (h_tmpl.c): concrete skeleton + trailing symbolic holes of one lexical class each (WS, digit, letter), parser mode a concrete cell: '
-          '19 templates x 2 modes (7 x 2 in the quick tier), every value of the holes; plus exponent-plus-sign templates 1e+D, -2.5E+D, 7e+2 WS and fully concrete '
-          'one-member dictionaries {"a":7} {"a":t} {"a":0x1C} {"a":7,} (mode a cell); '
+BOUNDS = ('JSON::parse on templated documents: concrete skeleton + symbolic holes of one lexical class each (WS, digit, hex digit, letter, escape letter, any byte), parser mode and entry point concrete cells, '
+          'input buffer of exactly the document length. '
+          'First set (h_tmpl.c, state merging, trailing holes only): 19 templates x 2 modes (7 x 2 quick) plus 1e+D, -2.5E+D, 7e+2 WS and the concrete one-member dictionaries {"a":7} {"a":t} {"a":0x1C} {"a":7,}. '
+          'Second set (h_doc.c, cbmc --paths, holes anywhere but the first byte of a value, at most two digit holes in a row): 47 scalar templates x 2 modes (DOCS in this file: decimal integers next to '
+          'INT64_MIN/INT64_MAX incl. two symbolic last digits, hex integers up to 16 digits, fraction/exponent forms with 1-digit symbolic exponents, 1.5e+300 / 1.5e+30D, number-like malformed input, strings with one '
+          'symbolic character of every class, the eight escapes, \\u00HH, \\uHHHH, \\xHH, malformed escapes, trailing bytes after a value) and every prefix (length >= 2) of 6 short documents with a symbolic last byte (PREFIX_DOCS). '
+          'Third set (h_cont.c, cbmc --paths, unit jc): 22 container templates (CONTS: lists and dictionaries with one or two members, nesting <= 3, strings/hex/comments as members, duplicate key, '
+          'missing / doubled / misplaced separators, trailing commas; digit holes inside the member numerals, one template each with the hole as the whole member). '
           'skip_whitespace_and_comments: every input of length 0..6 (quick) / 0..8 (thorough) over all 256 byte values, both modes; '
           'StringReader get_s8 / pget_s8 / eof / skip_if: buffers of 0..6 bytes, every start offset 0..LEN, pget offsets 0..LEN+1, '
           'literal lengths 1, 4, 5 (the lengths JSON::parse uses) with symbolic literal bytes; value_for_hex_char: all 256 bytes. '
-          'Loops unwound to LEN+3 with unwinding assertions.')
+          'Loops unwound to LEN+3 with unwinding assertions (exponent loops 11, 312 for the 3-digit exponents).')
 STUBS = ['message builders cut to empty strings (json_cuts.h): phosg::string_printf (text of the out_of_range thrown by value_for_hex_char); '
          'std::to_string(unsigned long), operator+(const char*, std::string&&), std::string(const char*) (texts of the parse_errors thrown by JSON::parse)',
          'engine/shim/unordered_map (fixed capacity 2) replaces std::unordered_map in the translated TU (empty dictionaries in the template queries)',
-         'ir2c --union-fp-bytes: double members of std::variant storage emitted as byte arrays (CBMC loses pointers stored in double-typed fields)']
-OUTSIDE = ['JSON::parse on inputs that are not one of the templates: totality / exception types on arbitrary bytes, acceptance and values of standard documents in '
-           'both modes, strict-mode rejection of the four extensions, extent consumed by the reader entry point, trailing-garbage rejection, nesting up to 500. '
-           'Measured (16 cores, cbmc 6.11, message builders cut, unordered_map shim, recursion bounded by the number of brackets): fully symbolic input of '
-           'LENGTH 1 (2 modes): symbolic execution 7-8 min, then the SAT back end exceeds 10 GB during propositional reduction (also with --slice-formula); '
-           'length 2: 13-17 min symbolic execution, >10 GB; "[" + one symbolic byte: no verdict in 1500 s. Reproduce with C05_PROBES=1 (queries probe_*).',
-           'a symbolic mode flag ([] with symbolic strict: > 28 GB) or a symbolic byte in front of concrete bytes ([WS] : no verdict in 900 s) is equally out of reach, hence '
-           'trailing holes and a concrete mode cell; templates dropped for memory/time: dictionaries with members, hex digits, positive exponents, holes inside strings, truncations',
-           'signed overflow on INT64_MIN in the parser (JSON.cc:118,161): invisible to the solver (generated C is unsigned arithmetic); reproduced natively with UBSan; patch in fixes-unconfirmed/',
+         'ir2c --union-fp-bytes: double members of std::variant storage emitted as byte arrays (CBMC loses pointers stored in double-typed fields)',
+         'unit jc (container templates): operator new/delete = deterministic pool allocator of engine/rt/rt_model.c (VERIF_NEW_POOL=16 blocks of 96 bytes, static, zero-initialised; use-after-delete not detected by CBMC, ASan checks the native replay); '
+         'constant-size memcpy/memset of 8..64 bytes as uint64_t word stores (VERIF_MEM_WORDS, same bytes); ir2c --ptrdiff --flat-unions']
+OUTSIDE = ['JSON::parse on inputs that are not one of the templates: totality / exception types on arbitrary bytes, acceptance and values of arbitrary standard documents, nesting beyond 3 (the statement says 500), '
+           'documents longer than 23 bytes, more than two members, exponents with a symbolic digit count, \\u escapes above U+00FF (statement excludes them), numbers beyond int64 (only "a value or a documented exception" is asserted). '
+           'Measured with state merging (16 cores, cbmc 6.11): fully symbolic input of LENGTH 1: symbolic execution 7-8 min, then > 10 GB in the SAT back end; "[" + one symbolic byte: no verdict in 1500 s; '
+           'a symbolic mode flag ([] with symbolic strict): > 28 GB; a symbolic byte in front of concrete bytes ("X", [WS]): 150 s / 4.4 GB resp. no verdict in 900 s. Reproduce with C05_PROBES=1 (queries probe_*).',
+           'Measured path-wise (cbmc --paths lifo, what the second and third template sets use; ~0.3 s per path, 8 s start-up per query): a hole inside a token 2-30 paths; a hole that is the first byte of a value ~700 paths '
+           '(cont301 [D] 316 s, cont361 [L] 220-320 s): the whole dispatch of the parser incl. both container branches is explored for it, so two such holes ([D,D]), a whitespace hole in front of a value ([1, WS ]: no verdict in 600 s), '
+           'three digit holes in a row (4DDD: 750+ paths, no verdict in 300 s), a WS hole after an exponent (exponent loop bound), two parser runs in one query over containers ([1D] x: 440 s, {"a":1D} x: 577 s) and two digit holes in two members '
+           '([1D,2D] 245 s, {"a":1D,"b":2D} 460 s, {"a":[1D,2D]} 547 s; only the first is kept) are at or beyond the budget. Dropped for that reason: [1D WS ,2D WS ] WS, {"a" WS :1D WS } WS (no verdict in 900 s), '
+           '{"a":{"b":{"c":1D}}} / [{"a":[1D]}] (bound failures of the pool / unwinding not sorted out), prefixes of container documents (not measured), the prefix -12.5e+ followed by a symbolic byte (no verdict in 300 s). Free bytes of length >= 1 at the start of a document remain out of reach.',
+           'signed overflow in the parser is invisible to the solver (generated C is unsigned arithmetic, --no-signed-overflow-check); the INT64_MIN accumulation overflow found natively with UBSan is fixed upstream (60d569e), values next to the limits are now decided by doc100-103, doc113-114',
            'offsets near 2^64 in StringReader::pget (offset+size wraps): not reachable from JSON::parse (it only forms where()+1 <= size); subject of C02']
-ASSUMPTIONS = ['the kernels are the only routes by which JSON::parse touches its input: StringReader::get_s8/pget_s8/eof/skip_if/go/where (by reading JSON.cc:19-258)']
+ASSUMPTIONS = ['unit jc: operator-new blocks are static zero-initialised pool blocks: behaviour that depends on reading uninitialised heap memory is not explored; use-after-delete is not detected in the model',
+               'path-wise runs (--paths lifo) decide every path with the solver but keep the global unwinding bounds; cbmc 6.11 single_path_symex_checker explores all paths (all-properties mode, no --stop-on-fail)',
+               'the kernels are the only routes by which JSON::parse touches its input: StringReader::get_s8/pget_s8/eof/skip_if/go/where (by reading JSON.cc:19-258)']
 
 
 def parse_unwindset(L, NB, elems=None, exp=11):
@@ -88,7 +99,7 @@ DOCS = {
     125: ('7 D . D D', 5, (0, 1), ()),
     126: ('2.5e D ,] (reader entry point)', 7, (0, 1), ()),
     127: ('1.5e+300 (no hole)', 8, (0, 1), (0,)),
-    128: ('1.5e+30 D', 8, (0, 1), ()),
+    128: ('1.5e+30 D', 8, (0,), ()),
     130: ('- (lone minus)', 1, (0, 1), ()),
     131: ('0 D (leading zero)', 2, (0, 1), ()),
     132: ('- WS', 2, (0, 1), ()),
@@ -109,7 +120,7 @@ DOCS = {
     212: ('"a\\ E L "', 6, (0, 1), ()),
     220: ('"\\u00 H H "', 8, (0, 1), (0,)),
     221: ('"\\u H H H H " (above U+00FF)', 8, (0, 1), ()),
-    222: ('"\\u00 H X " (X no hex digit)', 8, (0, 1), ()),
+    222: ('"\\u00 H X " (X no hex digit)', 8, (0, 1), (0,)),
     223: ('"\\u00 H H L "', 9, (0, 1), (1,)),
     225: ('"\\x H H "', 6, (0, 1), (0,)),
     226: ('"\\x H X " (X no hex digit)', 6, (0, 1), ()),
@@ -130,6 +141,8 @@ def doc_queries(tier):
     for t in sorted(PREFIX_DOCS):
         nm, L = PREFIX_DOCS[t]
         for P in range(2, L + (0 if t == 505 else 1)):  # a symbolic byte at the START of a value (P == 1, or after the comment of 505) is not feasible path-wise
+            if t == 501 and P == 7:
+                continue  # '-12.5e+' + symbolic byte: no verdict in 300 s (exponent sign/digit look-ahead on the hole, two parser runs)
             for st in (0, 1):
                 if tier == 'quick' and not (t == 500 and P in (5, 11) and st == 0):
                     continue
@@ -143,41 +156,29 @@ def doc_queries(tier):
 WALK = '_ZL4walkRKN5phosg4JSONEPKhm'
 # tpl: (skeleton, document length, nesting, modes, quick-tier modes, timeout)
 CONTS = {
-    300: ('[1 D ,2 D ]', 7, 1, (0, 1), (), 600),
+    300: ('[1 D ,2 D ]', 7, 1, (1,), (), 600),
     301: ('[ D ] (hole = first byte of the member)', 3, 1, (0,), (), 900),
-    302: ('[[1 D ]]', 6, 2, (0, 1), (), 600),
-    303: ('[[],[1 D ]]', 9, 2, (0, 1), (), 600),
-    304: ('[1 D ] x (both entry points)', 6, 1, (0, 1), (), 600),
-    305: ('[" L ",1 D ]', 8, 1, (0, 1), (), 600),
-    310: ('{"a":1 D }', 8, 1, (0, 1), (), 600),
-    311: ('{"a":1 D ,"b":2 D }', 15, 1, (0, 1), (), 900),
+    302: ('[[1 D ]]', 6, 2, (0, 1), (0,), 300),
+    303: ('[[],[1 D ]]', 9, 2, (0, 1), (), 300),
+    305: ('[" L ",1 D ]', 8, 1, (0, 1), (), 300),
+    310: ('{"a":1 D }', 8, 1, (0, 1), (1,), 300),
     312: ('{"a":1,"a":2} (duplicate key)', 13, 1, (0, 1), (), 300),
-    313: ('{" L ":1 D }', 8, 1, (0, 1), (), 600),
-    314: ('{"a":1 D } x (both entry points)', 10, 1, (0, 1), (), 600),
-    315: ('{"a":" L "}', 9, 1, (0, 1), (), 600),
-    320: ('{"a" 1 D } (missing colon)', 8, 1, (0, 1), (), 300),
-    321: ('[1 D SP 2 D ] (missing comma)', 7, 1, (0, 1), (), 300),
+    313: ('{" L ":1 D }', 8, 1, (0,), (), 600),
+    315: ('{"a":" L "}', 9, 1, (0, 1), (), 300),
+    320: ('{"a" 1 D } (missing colon)', 8, 1, (0, 1), (0,), 300),
+    321: ('[1 D SP 2 D ] (missing comma)', 7, 1, (0,), (), 300),
     322: ('{"a":1 D SP "b":2} (missing comma)', 14, 1, (0, 1), (), 300),
     323: ('[1 D ,,2] (doubled comma)', 7, 1, (0, 1), (), 300),
     324: ('{"a",1 D } (comma for colon)', 8, 1, (0, 1), (), 300),
     325: ('[,1 D ] (leading comma)', 5, 1, (0, 1), (), 300),
-    330: ('[1 D ,]', 5, 1, (0, 1), (), 300),
-    331: ('{"a":1 D ,}', 9, 1, (0, 1), (), 600),
-    332: ('[1 D , WS ]', 6, 1, (0, 1), (), 600),
-    340: ('[[[1 D ]]]', 8, 3, (0, 1), (), 600),
-    341: ('{"a":{"b":{"c":1 D }}}', 20, 3, (0, 1), (), 900),
-    342: ('[{"a":[1 D ]}]', 12, 3, (0, 1), (), 900),
-    343: ('{"a":[1 D ,2 D ]}', 13, 2, (0, 1), (), 900),
-    350: ('[1 D WS ,2 D WS ] WS', 10, 1, (0, 1), (), 900),
-    351: ('{"a" WS :1 D WS } WS', 11, 1, (0, 1), (), 900),
-    352: ('[ WS 7] (whitespace in front of a member)', 4, 1, (0,), (), 900),
-    360: ('[t,f,n,null,true,false]', 23, 1, (0, 1), (), 300),
-    361: ('[ L ] (hole = the member)', 3, 1, (0, 1), (), 900),
-    362: ('[0x H ]', 5, 1, (0, 1), (), 300),
-    363: ('{"a":0x H }', 9, 1, (0, 1), (), 600),
-    364: ('[1 D // L LF ]', 8, 1, (0, 1), (), 600),
+    330: ('[1 D ,]', 5, 1, (0,), (0,), 300),
+    331: ('{"a":1 D ,}', 9, 1, (0, 1), (1,), 300),
+    340: ('[[[1 D ]]]', 8, 3, (0, 1), (), 300),
+    361: ('[ L ] (hole = the member)', 3, 1, (1,), (), 900),
+    362: ('[0x H ]', 5, 1, (0, 1), (1,), 300),
+    363: ('{"a":0x H }', 9, 1, (0, 1), (), 300),
+    364: ('[1 D // L LF ]', 8, 1, (0, 1), (), 300),
 }
-PREFIX_CONTS = {600: ('[1,2]', 5, 1), 601: ('{"a":1}', 7, 1), 602: ('[true,null]', 11, 1), 603: ('[[1],{}]', 8, 2)}
 
 
 def cont_q(name, defs, L, nb, to, desc, bounds):
@@ -194,14 +195,6 @@ def cont_queries(tier):
             qs.append(cont_q('cont%03d_strict%d' % (t, st), {'TPL': t, 'STRICT': st}, L, nb, to,
                              'JSON::parse(%s) on the templated container document %s: exact kind / size / members / where(), or rejection with the documented exceptions' % ('strict' if st else 'default', nm),
                              'template %s, mode %s, every value of the holes; nesting %d; exact-size input buffer' % (nm, 'strict' if st else 'default', nb)))
-    if tier != 'quick':
-        for t in sorted(PREFIX_CONTS):
-            nm, L, nb = PREFIX_CONTS[t]
-            for P in range(2, L + 1):
-                for st in (0, 1):
-                    qs.append(cont_q('cpre%03d_len%02d_strict%d' % (t, P, st), {'TPL': t, 'STRICT': st, 'PREFIX': P}, L, nb, 900,
-                                     'JSON::parse(%s), both entry points, on the first %d bytes of %s with the last of them replaced by a symbolic byte: only parse_error / out_of_range escape, no read outside the %d-byte buffer' % ('strict' if st else 'default', P, nm, P),
-                                     'prefix length %d of %s, last byte all 256 values, mode %s' % (P, nm, 'strict' if st else 'default')))
     return qs
 
 
